@@ -390,6 +390,12 @@ impl ISocket for DealerSocket {
     if !self.core.is_running() {
       return Err(ZmqError::InvalidState("Socket is closing".into()));
     }
+    // The automatic delimiter takes one of the frames a message can hold.
+    if !self.framing.is_manual() && user_frames.len() >= FrameBatch::MAX_FRAMES {
+      return Err(ZmqError::InvalidMessage(
+        "DEALER send_multipart: no room left for the delimiter frame".into(),
+      ));
+    }
 
     let sndtimeo_opt = { self.core.core_state.read().options.sndtimeo };
 
